@@ -26,8 +26,44 @@ def gen_prog_case(rng, depth):
     if rng.random() < 0.6:
         pre.append("EVAL " + " ".join("(setq %s %s)" % (v, g.const()) for v in rng.sample(g.VARS, rng.randint(1, 3))))
     prog = g.program()
+    if rng.random() < 0.3:
+        # a user macro with parameters named like the pool variables, ticking while it expands; its calls are
+        # expanded while the program text is read, so the error is raised inside the macro call at read time
+        pre.append("EVAL (defmacro mm (a &optional b) (tick 60) (list 'progn (tick 61) a b))")
+        prog = "(list (mm %s %s) %s)" % (g.expr(1), g.expr(1), prog)
     follow = ProgGen(rng, max_depth=2, funcs=False).program(1)
     return pre, prog, follow
+
+# errors raised by the binding construct itself (ill-typed count / sequence, malformed binding lists, arity and
+# parameter-list errors, a failing predicate ...), at every stage of the construct, rather than by a sub-expression
+BAD = ["2.5", "nil", "\"s\"", "'(1)", "'q", "(car 5)", "novar", "'(1 . 2)", "5", ":k", "t", "-1", "(list 1 2)"]
+def own_error_forms():
+    out = []
+    for x in BAD:
+        out += ["(dotimes (a %s) (tick 1))" % x, "(dotimes (a 2 %s) (tick 1))" % x, "(dolist (a %s) (tick 1))" % x,
+                "(dolist (a '(1 2) %s) (tick 1))" % x, "(dotimes (a 3) (dotimes (b %s) (tick 1)))" % x,
+                "(let ((a 1) (b %s)) (tick 1))" % x, "(let* ((a 1) (b %s)) (tick 1))" % x, "(let ((a 1) %s) (tick 1))" % x,
+                "(let* ((a 1) %s) (tick 1))" % x, "(let ((a 1) (%s 2)) (tick 1))" % x, "(let* ((a 1) (%s 2)) (tick 1))" % x,
+                "(let ((a 1)) (car %s))" % x, "(let ((a 1)) (let ((b 2)) (dolist (c %s) c)))" % x,
+                "(fa 1 %s)" % x, "(fa %s)" % x, "(funcall 'fa 1 2 %s)" % x, "(fb %s)" % x, "(funcall 'fb %s 1)" % x,
+                "(mapcar 'fb (list 1 %s))" % x, "(seq-map 'fb (list 1 %s))" % x, "(seq-filter 'fb (list 1 %s))" % x,
+                "(seq-find 'fb (list 1 %s))" % x, "(seq-reduce (lambda (a b) (car b)) (list %s) 0)" % x,
+                "(sort (list 3 1 2) (lambda (a b) (< a %s)))" % x, "(funcall (lambda (a &optional b) (car %s)) 1)" % x,
+                "(mc 1 %s)" % x, "(macroexpand '(mc 1 %s))" % x, "(if-let ((a 1) (b %s)) (car a) (car 5))" % x,
+                "(when-let ((a 1) (b %s)) (car a))" % x, "(if-let* ((a 1) (b %s)) (car a))" % x,
+                "(while-let ((a %s)) (car a))" % x.replace("'(1)", "nil").replace("(list 1 2)", "nil").replace("'(1 . 2)", "nil").replace("5", "nil").replace("t", "nil").replace("2.nil", "nil").replace("\"s\"", "nil").replace("-1", "nil").replace(":k", "nil").replace("'q", "nil"),
+                "(eval '(let ((a 1)) (dotimes (b %s) b)))" % x]
+    out += ["(dotimes (a) 1)", "(dotimes a 1)", "(dotimes (a 2 3 4) 1)", "(dotimes (a 2 . 3) 1)", "(dotimes (a . 2) 1)", "(dotimes)",
+            "(dolist (a) 1)", "(dolist a 1)", "(dolist (a '(1) 3 4) 1)", "(dolist (a '(1) . 3) 1)", "(dolist (a . 2) 1)", "(dolist)",
+            "(dotimes (a 2) . 5)", "(dolist (a '(1 2)) . 5)", "(let ((a 1)) . 5)", "(let* ((a 1)) . 5)", "(let ((a 1) . 5) 1)",
+            "(let ((a 1) (b 2 3)) 1)", "(let* ((a 1) (b 2 3)) 1)", "(let ((a 1) (b . 2)) 1)", "(let* ((a 1) (b . 2)) a)",
+            "(fa)", "(fa 1 2 3 4)", "(fc 1)", "(fc)", "(funcall 'fa)", "(mc)", "(mc 1 2 3)", "(funcall (lambda (a :k) a) 1 2)",
+            "(funcall (lambda (a &optional) a) 1)", "(funcall (lambda (a &rest) a) 1)", "(funcall (lambda (a b) a) 1)",
+            "(funcall (lambda (a &rest b c) a) 1 2 3)", "(funcall (lambda (a 5) a) 1 2)"]
+    return out
+
+OWN_PRE = ["EVAL (defun fa (a &optional b &rest c) (car b))", "EVAL (defun fb (a) (car a))", "EVAL (defun fc (a b) (car 5))",
+           "EVAL (defmacro mc (a b) (list 'car b))"]
 
 def generate(tier, seed):
     rng = C.rng_for(seed, "C03")
@@ -54,7 +90,12 @@ def generate(tier, seed):
             lines += ["NEW"] + pre + ["DUMP a b c", "FAILAT %d" % k, "EVAL " + prog, "TICKS", "DUMP a b c",
                                       "FAILAT 0", "EVAL " + follow, "DUMP a b c"]
             runs += 1
-    return {"lines": lines, "distribution": {"programs": nprog, "fault_runs": runs,
+    own = own_error_forms()
+    for globals_first in (True, False):
+        for f in own:
+            lines += ["NEW"] + OWN_PRE + (["EVAL (setq a 7) (setq b 8) (setq c 9)"] if globals_first else []) + \
+                     ["DUMP a b c", "EVAL " + f, "DUMP a b c", "EVAL (list (boundp 'a) (boundp 'b) (boundp 'c))", "DUMP a b c"]
+    return {"lines": lines, "distribution": {"programs": nprog, "fault_runs": runs, "own_error_forms": 2 * len(own),
                                              "ticks_per_program_max": max(counts or [0])}}
 
 STATE = re.compile(r"(\w+)=(\d+):")
